@@ -21,3 +21,52 @@ pub open spec fn cl_e_in_range(e: int, le: nat) -> bool {
 pub open spec fn cl_attrs_in_range(m: Seq<CL03Message>, lm: nat) -> bool {
     forall|i: int| 0 <= i < m.len() ==> 0 <= (#[trigger] m[i]).value@ && m[i].value@ < ipow(2, lm)
 }
+
+// ---- Boudot 2000: proof of same secret -----------------------------------------------------------------------
+/// W_1 = g_1^d h_1^{d_1} E^{-c},  W_2 = g_2^d h_2^{d_2} F^{-c};  c' = H(W_1 || W_2) (decimal strings)
+pub open spec fn ss_w(e: Integer, g: Integer, h: Integer, n: Integer, c: int, d: int, d_i: int) -> int {
+    (pow_mod(g@, d, n@) * pow_mod(h@, d_i, n@) * pow_mod(e@, -1 * c, n@)) % n@
+}
+
+pub open spec fn ss_challenge<H>(e: Integer, f: Integer, g_1: Integer, h_1: Integer, g_2: Integer, h_2: Integer, n: Integer, p: ProofSs) -> int {
+    from_digits_be(hash_str::<H>(dec_string(ss_w(e, g_1, h_1, n, p.challenge@, p.d@, p.d_1@)) + dec_string(ss_w(f, g_2, h_2, n, p.challenge@, p.d@, p.d_2@))))
+}
+
+/// modular division a / b mod m (divm): the x with b*x = a (mod m)
+pub uninterp spec fn divm_spec(a: int, b: int, m: int) -> int;
+
+pub proof fn ax_divm(a: int, b: int, m: int)
+    requires invertible(b, m),
+    ensures (divm_spec(a, b, m) * b) % m == a % m, 0 <= divm_spec(a, b, m) < m,
+{ admit(); }
+
+// ---- Boudot 2000: larger-interval proof, tolerance proof ------------------------------------------------------
+pub open spec fn li_c(p: ProofLi, t: nat) -> int { p.C@ % ipow(2, t) }
+
+/// verifier's acceptance condition of the proof of larger interval (Algorithm 6)
+pub open spec fn li_accept<H>(p: ProofLi, e: Integer, g: Integer, h: Integer, n: Integer, t: nat, l: nat, b: int, tt: nat) -> bool {
+    let c = li_c(p, t);
+    let commit = (pow_mod(g@, p.D_1@, n@) * pow_mod(h@, p.D_2@, n@) * pow_mod(e@, -1 * c, n@)) % n@;
+    &&& c * b <= p.D_1@
+    &&& p.D_1@ <= ipow(2, tt) * (ipow(2, t + l) * b - 1)
+    &&& p.C@ == from_digits_be(hash_str::<H>(dec_string(commit)))
+}
+
+/// the bound the PROVER's loop exits with (Algorithm 5): c*b <= D_1 <= 2^T * 2^(t+l) * b - 1
+pub open spec fn li_prover_bound(d1: int, c: int, t: nat, l: nat, b: int, tt: nat) -> bool {
+    c * b <= d1 && d1 <= (ipow(2, tt) * ipow(2, t + l)) * b - 1
+}
+
+pub open spec fn tol_aa(a: int, b: int, t: nat, l: nat, tt: nat) -> int {
+    ipow(2, tt) * a - ipow(2, l + t + tt / 2 + 1) * isqrt(b - a)
+}
+pub open spec fn tol_bb(a: int, b: int, t: nat, l: nat, tt: nat) -> int {
+    ipow(2, tt) * b + ipow(2, l + t + tt / 2 + 1) * isqrt(b - a)
+}
+
+pub proof fn lemma_ipow2_pos(k: nat)
+    ensures ipow(2, k) >= 1,
+    decreases k,
+{
+    if k > 0 { lemma_ipow2_pos((k - 1) as nat); }
+}
